@@ -181,7 +181,28 @@ def expand(p):
     return p
 
 
+def _as_sum_atom(b, other):
+    """If b == k * S for a sum atom S occurring in `other` with a negative exponent, return
+    k * atom(S) so that the product cancels at monomial level (S * S^-1 = 1)."""
+    if len(b) < 2:
+        return b
+    wanted = None
+    for m in other:
+        for atom, e in m:
+            if atom[0] == "sum" and len(atom[1]) == len(b):
+                if wanted is None:
+                    c = lead(b)
+                    wanted = (key(scale(b, 1 / c)), c)
+                if atom[1] == wanted[0]:
+                    return {((atom, KONE),): wanted[1]}
+    return b
+
+
 def mul(a, b):
+    if len(a) > 1 or len(b) > 1:
+        a2 = _as_sum_atom(a, b)
+        b = _as_sum_atom(b, a)
+        a = a2
     return expand(mul_raw(a, b))
 
 
@@ -241,8 +262,14 @@ def power(p, e):
             elif all(is_const(unkey(x)) for x in exs):
                 common.append((atom, key(const(min(cval(unkey(x)) for x in exs)))))
     if common:
-        g = {tuple(sorted(common, key=rk)): F(1)}
-        rest = mul(p, power(g, const(-1)))
+        gm = tuple(sorted(common, key=rk))
+        g = {gm: F(1)}
+        # divide at monomial level (no re-expansion of sum atoms, so S^-1 * S really cancels)
+        ginv = tuple((a, key(neg(unkey(x)))) for a, x in gm)
+        rest = {}
+        for m, c in p.items():
+            mm = mono_mul(m, ginv)
+            rest[mm] = rest.get(mm, 0) + c
         return mul(power(g, e), power(rest, e))
     c = lead(p)
     prim = scale(p, 1 / c)
@@ -306,39 +333,77 @@ def depends(p, x):
     return any(a == ("sym", x) for a in atoms(p))
 
 
-def subst(p, f):
+def subst(p, f, _memo=None):
     """Rebuild p bottom-up, replacing every atom a for which f(a) is not None by that Poly.
 
-    f receives the *rebuilt* atom (its own arguments already substituted)."""
+    f receives the *rebuilt* atom (its own arguments already substituted).  Untouched
+    monomials are copied; results per atom / exponent are memoised for the call."""
+    memo = {} if _memo is None else _memo
     out = {}
     for m, c in p.items():
-        term = const(c)
+        keep = []
+        changed = []
         for atom, e in m:
-            e2 = subst(unkey(e), f)
-            base = _subst_atom(atom, f)
+            e2 = _subst_key(e, f, memo)
+            base = _subst_atom(atom, f, memo)
+            if e2 is None and base is None:
+                keep.append((atom, e))
+            else:
+                changed.append((base if base is not None else atom_poly(atom), e2 if e2 is not None else unkey(e)))
+        if not changed:
+            v = out.get(m, 0) + c
+            if v:
+                out[m] = v
+            else:
+                out.pop(m, None)
+            continue
+        term = {tuple(keep): c}
+        for base, e2 in changed:
             term = mul(term, power(base, e2))
         out = add(out, term)
     return expand(out)
 
 
-def _subst_atom(atom, f):
+def _subst_key(k, f, memo):
+    """substituted Poly for a poly key, or None if unchanged"""
+    mk = ("k", k)
+    if mk in memo:
+        return memo[mk]
+    p = unkey(k)
+    q = subst(p, f, memo)
+    r = None if q == p else q
+    memo[mk] = r
+    return r
+
+
+def _subst_atom(atom, f, memo):
+    """replacement Poly for an atom, or None if unchanged"""
+    if atom in memo:
+        return memo[atom]
+    r = None
     if atom[0] == "sum":
-        return subst(unkey(atom[1]), f)  # power() re-forms the sum atom
-    if atom[0] == "fn":
-        args = [subst(unkey(a), f) for a in atom[2]]
-        if atom[1] == "log":
-            new = log(args[0])
+        r = _subst_key(atom[1], f, memo)  # power() re-forms the sum atom
+    elif atom[0] == "fn":
+        new_args = [_subst_key(a, f, memo) for a in atom[2]]
+        if any(a is not None for a in new_args):
+            args = [a if a is not None else unkey(k) for a, k in zip(new_args, atom[2])]
+            if atom[1] == "log":
+                new = log(args[0])
+            else:
+                new = atom_poly(("fn", atom[1], tuple(key(a) for a in args)))
             if len(new) == 1:
                 ((mm, cc),) = new.items()
                 if cc == 1 and len(mm) == 1 and mm[0][1] == KONE:
-                    r = f(mm[0][0])
-                    return r if r is not None else new
-            return new
-        atom = ("fn", atom[1], tuple(key(a) for a in args))
-    r = f(atom)
-    if r is not None:
-        return r
-    return atom_poly(atom)
+                    rr = f(mm[0][0])
+                    if rr is not None:
+                        new = rr
+            r = new
+        else:
+            r = f(atom)
+    else:
+        r = f(atom)
+    memo[atom] = r
+    return r
 
 
 def subst_sym(p, mapping):
